@@ -359,7 +359,7 @@ def x_strip_set(ctx):
         pushes = [e for e in p.effects if e[0] == "call" and e[1].endswith("::push")]
         ch = None
         for g in gs:
-            m = re.match(r"^<Iter<T> as Iterator>::next\(.*\) as Some\.0=(?:'(.)'|other)$", g)
+            m = re.match(r"(?s)^<Iter<T> as Iterator>::next\(.*\) as Some\.0=(?:'(.)'|other)$", g)
             if m:
                 ch = m.group(1) or "other"
         if ch and ch != "other":
